@@ -60,14 +60,14 @@ SPEC = dict(
              'performs write_setting / read_setting for every setting of ET, DT (sensors and firmware variants, Modbus RTU and TCP) and the '
              'register-addressed eco-mode settings of ES (AA55 and Modbus) against the simulated inverter: exactly one write, addressed to the '
              "setting's registers, every other register unchanged (incl. the other half for one-byte settings), value read back.",
-        note='End-to-end theorems (C17_write_read_*) hold on the register-file model Model/Settings.v for the 68 of 105 Modbus settings of kinds Integer, '
+        note='End-to-end theorems (C17_write_read_*) hold on the register-file model Model/Settings.v for the 75 of 105 Modbus settings of kinds Integer, '
              'IntegerS, ByteH, ByteL, Decimal (sizes / scales checked against the generated tables, shape of _write_setting / _read_sensor emitted from '
              'the source by tools/ws2v.py, model compared with the real classes); multi-register groups, timestamps and values scaled by 10, and the ES '
              'paths, are covered by the monitor only.',
         technique='Coq proofs on codecs and on a register-file model of write_setting / read_setting + correspondences + write/read-back monitor',
         design_ref='DESIGN.md section 5 (C17)'),
     stages=[SP.stage_encoders, stage_settings_model, SP.inv_stage('write-readback-monitor', IM.mon_write)],
-    theorems=['C17_write_read_integer', 'C17_write_read_integer_signed', 'C17_write_read_byte_high', 'C17_write_read_byte_low', 'C17_write_read_decimal', 'C17_generated_shapes_ok', 'C17_generated_settings_fit', 'C17_integer', 'C17_integer_signed', 'C17_byte_high', 'C17_byte_low', 'C17_decimal'],
+    theorems=['C17_write_read_long', 'C17_generated_shapes_ok2', 'C17_write_read_integer', 'C17_write_read_integer_signed', 'C17_write_read_byte_high', 'C17_write_read_byte_low', 'C17_write_read_decimal', 'C17_generated_shapes_ok', 'C17_generated_settings_fit', 'C17_integer', 'C17_integer_signed', 'C17_byte_high', 'C17_byte_low', 'C17_decimal'],
     rule='every setting with an encoder x boundary + seeded values (all 256 values of one-byte settings and all multiples of the resolution in thorough) '
          'x prior register contents x {ET RTU, ET TCP, DT, ES AA55, ES Modbus}',
     trusted_base=SP.TB_SENS,
